@@ -63,16 +63,17 @@ Print Assumptions C04_metadata.
 
 (* Scanning the rows of a RESULT Rows: each of the first n calls of Iter.Scan delivers exactly the cells
    of the next row -- one destination per column, a tuple column expanding to one destination per
-   component with null for the components a null or short tuple lacks -- each with its column's type,
+   component with null for the components a null or short tuple lacks (a tuple without components taking
+   no destination at all) -- each with its column's type,
    null distinguished from empty; the call after the last row returns false without error, and the
    rows content is consumed exactly. *)
 Theorem C04_rows : forall m rows,
-  sm_nometa m = false -> Forall no_empty_tuple (sm_cols m) -> Forall (wf_row (sm_cols m)) rows ->
+  sm_nometa m = false -> Forall (wf_row (sm_cols m)) rows ->
   iter_scans (S (length rows)) (view_meta m) (count rows) (scan_width (sm_cols m))
              {| it_pos := 0; it_err := None; it_buf := enc_rows rows |}
   = map (fun r => SRow (view_row (sm_cols m) r)) rows ++ [SFalse None].
 Proof.
-  intros m rows Hn Hne Hw. exact (iter_scans_enc m Hn Hne rows 0 Hw (Z.le_refl 0)).
+  intros m rows Hn Hw. exact (iter_scans_enc m Hn rows 0 Hw (Z.le_refl 0)).
 Qed.
 Print Assumptions C04_rows.
 
@@ -80,30 +81,28 @@ Print Assumptions C04_rows.
    the result metadata of the PREPARED response (Conn.executeQuery), scanning delivers the same cells,
    and the paging state is the rows frame's. *)
 Theorem C04_skip_meta : forall m rows_meta rows,
-  sm_nometa m = false -> Forall no_empty_tuple (sm_cols m) -> Forall (wf_row (sm_cols m)) rows ->
+  sm_nometa m = false -> Forall (wf_row (sm_cols m)) rows ->
   iter_scans (S (length rows)) (skip_meta_iter (view_meta m) (view_meta rows_meta)) (count rows) (scan_width (sm_cols m))
              {| it_pos := 0; it_err := None; it_buf := enc_rows rows |}
   = map (fun r => SRow (view_row (sm_cols m) r)) rows ++ [SFalse None]
   /\ m_paging (skip_meta_iter (view_meta m) (view_meta rows_meta)) = match sm_paging rows_meta with Some ps => ps | None => [] end.
 Proof.
-  intros m rm rows Hn Hne Hw. split; [|reflexivity].
+  intros m rm rows Hn Hw. split; [|reflexivity].
   rewrite (iter_scans_ext _ _ (view_meta m)) by reflexivity.
-  exact (iter_scans_enc m Hn Hne rows 0 Hw (Z.le_refl 0)).
+  exact (iter_scans_enc m Hn rows 0 Hw (Z.le_refl 0)).
 Qed.
 Print Assumptions C04_skip_meta.
 
-(* The same rows through the Scanner API (Iter.Scanner: Next, then Scan): the same cells, provided every
-   column but the last scans into exactly one destination.  Without that hypothesis the statement is
-   false for the code as it is (C04/Refuted.v: a tuple<int,int> column followed by an int column makes
-   Scanner.Scan panic; known finding scanner-tuple-column-offset). *)
+(* The same rows through the Scanner API (Iter.Scanner: Next, then Scan): the same cells, for every column
+   layout (before the fix of scanner-tuple-column-offset this needed "every column but the last scans into one
+   destination"). *)
 Theorem C04_scanner : forall m rows,
-  sm_nometa m = false -> Forall no_empty_tuple (sm_cols m) -> one_dest_before_last (sm_cols m) ->
-  Forall (wf_row (sm_cols m)) rows ->
+  sm_nometa m = false -> Forall (wf_row (sm_cols m)) rows ->
   scanner_steps (S (length rows)) (view_meta m) (count rows) (scan_width (sm_cols m))
                 {| it_pos := 0; it_err := None; it_buf := enc_rows rows |}
   = map (fun r => SRow (view_row (sm_cols m) r)) rows ++ [SFalse None].
 Proof.
-  intros m rows Hn Hne H1 Hw. exact (scanner_steps_enc m Hn Hne H1 rows 0 Hw (Z.le_refl 0)).
+  intros m rows Hn Hw. exact (scanner_steps_enc m Hn rows 0 Hw (Z.le_refl 0)).
 Qed.
 Print Assumptions C04_scanner.
 
@@ -139,19 +138,10 @@ Proof.
     vm_compute; intros H; repeat (destruct H as [H|H]; [discriminate H|]); exact H.
 Qed.
 
-Example C04_nonvacuous_scanner : one_dest_before_last (rev (sm_cols ex_meta)) /\ ~ one_dest_before_last (sm_cols ex_meta).
+Example C04_nonvacuous_rows : Forall (wf_row (sm_cols ex_meta)) ex_rows.
 Proof.
-  split.
-  - unfold one_dest_before_last, ex_meta. cbn [sm_cols rev app removelast]. repeat constructor.
-  - unfold one_dest_before_last, ex_meta. cbn [sm_cols removelast]. intros H. inversion H as [|? ? H1 _]. vm_compute in H1. discriminate H1.
-Qed.
-
-Example C04_nonvacuous_rows : Forall (wf_row (sm_cols ex_meta)) ex_rows /\ Forall no_empty_tuple (sm_cols ex_meta).
-Proof.
-  split.
-  - unfold ex_rows, ex_meta, wf_row. cbn [sm_cols].
-    repeat constructor; unfold wf_cell; cbn [sc_type length map concat]; try exact I; try small.
-  - unfold ex_meta; cbn [sm_cols]. repeat constructor.
+  unfold ex_rows, ex_meta, wf_row. cbn [sm_cols].
+  repeat constructor; unfold wf_cell; cbn [sc_type length map concat]; try exact I; try small.
 Qed.
 
 Example C04_nonvacuous_response :
@@ -159,7 +149,7 @@ Example C04_nonvacuous_response :
   /\ wf_response 5 (RespError 4864 [120] (XReadFailure 1 2 3 (ReasonMap [([10; 0; 0; 1], 7); ([0;0;0;0;0;0;0;0;0;0;255;255;10;0;0;2], 8)]) 1)).
 Proof.
   split.
-  - cbn [wf_response wf_result]. split; [exact C04_nonvacuous_meta|]. split; [unfold ex_rows; small|]. intros _. exact (proj1 C04_nonvacuous_rows).
+  - cbn [wf_response wf_result]. split; [exact C04_nonvacuous_meta|]. split; [unfold ex_rows; small|]. intros _. exact C04_nonvacuous_rows.
   - cbn [wf_response wf_err wf_fail err_code_of]. repeat split; try small; try reflexivity.
     + constructor; [split; [left; reflexivity | cbn [snd]; small] | constructor; [split; [right; reflexivity | cbn [snd]; small] | constructor]].
     + cbn [map fst]; repeat constructor; vm_compute; intros H; repeat (destruct H as [H|H]; [discriminate H|]); exact H.
